@@ -53,7 +53,7 @@ Init ==
   /\ hdr = [primary |-> 1, tpc |-> TRUE, rec |-> TRUE, slots |-> <<Slot(1, 0), Slot(0, 0)>>]
   /\ dgod = [primary |-> 1, tpc |-> TRUE, rec |-> TRUE]
   /\ dslots = <<Slot(1, 0), Slot(0, 0)>>
-  /\ dpages = {} /\ pend = <<>> /\ vparts = [v \in 0..MaxVer |-> 0] /\ parent = [v \in 0..MaxVer |-> 0]
+  /\ dpages = {} /\ pend = <<>> /\ vparts = (0 :> 0 @@ 1 :> 0) /\ parent = (0 :> 0 @@ 1 :> 0)
   /\ cur = None /\ nextVer = 1 /\ nextTxn = 2 /\ acked = 0 /\ visible = 0
   /\ crashes = 0 /\ grows = 0 /\ bad = FALSE
 
@@ -86,7 +86,9 @@ Persist == LET d == Apply(pend, 1..Len(pend), dgod, dslots, dpages)
 WritePage ==
   LET v == IF cur.stage = "idle" THEN nextVer ELSE cur.ver IN
   /\ v <= MaxVer /\ vparts[v] < MaxParts
-  /\ cur.stage \in {"idle", "pages"}
+  \* the writes of one flush are issued in no particular order (the header first, usually); a two-phase
+  \* commit has flushed everything by the time it swaps the primary
+  /\ ~(cur.kind = "2pc" /\ cur.stage \in {"swap", "sync2"})
   /\ vparts' = [vparts EXCEPT ![v] = @ + 1]
   /\ pend' = Append(pend, [k |-> "page", ver |-> v, n |-> vparts[v] + 1])
   /\ UNCHANGED <<parent, hdr, dgod, dslots, dpages, cur, nextVer, nextTxn, acked, visible, crashes, grows, bad>>
@@ -95,15 +97,18 @@ WritePage ==
 Begin(kind) ==
   /\ cur.stage = "idle" /\ nextVer <= MaxVer
   /\ cur' = [ver |-> nextVer, kind |-> kind, stage |-> "pages"]
-  /\ parent' = [parent EXCEPT ![nextVer] = visible]
+  /\ parent' = ([parent EXCEPT ![nextVer] = visible] @@ (nextVer + 1) :> 0)
+  /\ vparts' = (vparts @@ (nextVer + 1) :> 0)
   /\ nextVer' = nextVer + 1
-  /\ UNCHANGED <<hdr, dgod, dslots, dpages, pend, vparts, nextTxn, acked, visible, crashes, grows, bad>>
+  /\ UNCHANGED <<hdr, dgod, dslots, dpages, pend, nextTxn, acked, visible, crashes, grows, bad>>
 
 \* header.write_secondary_slot(): in memory
-SetSlot ==
+\* (the transaction id must be newer than the primary's: asserted in commit())
+SetSlot(t) ==
   /\ cur.stage = "pages"
-  /\ hdr' = [hdr EXCEPT !.slots[Other(hdr.primary)] = Slot(nextTxn, cur.ver)]
-  /\ nextTxn' = nextTxn + 1
+  /\ t > hdr.slots[hdr.primary].txn
+  /\ hdr' = [hdr EXCEPT !.slots[Other(hdr.primary)] = Slot(t, cur.ver)]
+  /\ nextTxn' = t + 1
   /\ cur' = [cur EXCEPT !.stage = "hdr1"]
   /\ UNCHANGED <<parent, dgod, dslots, dpages, pend, vparts, nextVer, acked, visible, crashes, grows, bad>>
 
@@ -144,21 +149,30 @@ Sync2 ==
   /\ UNCHANGED <<parent, hdr, vparts, nextVer, nextTxn, crashes, grows, bad>>
 
 \* non_durable_commit(): the secondary slot in memory, nothing synced
-NonDurable ==
+NonDurable(t) ==
   /\ cur.stage = "idle" /\ nextVer <= MaxVer
-  /\ hdr' = [hdr EXCEPT !.slots[Other(hdr.primary)] = Slot(nextTxn, nextVer)]
-  /\ nextTxn' = nextTxn + 1
+  /\ hdr' = [hdr EXCEPT !.slots[Other(hdr.primary)] = Slot(t, nextVer)]
+  /\ nextTxn' = t + 1
   /\ visible' = nextVer
-  /\ parent' = [parent EXCEPT ![nextVer] = visible]
+  /\ parent' = ([parent EXCEPT ![nextVer] = visible] @@ (nextVer + 1) :> 0)
+  /\ vparts' = (vparts @@ (nextVer + 1) :> 0)
   /\ nextVer' = nextVer + 1
-  /\ UNCHANGED <<dgod, dslots, dpages, pend, vparts, cur, acked, crashes, grows, bad>>
+  /\ UNCHANGED <<dgod, dslots, dpages, pend, cur, acked, crashes, grows, bad>>
 
-\* the file grows during a transaction: the header (with whatever the slots hold) is rewritten
-Grow ==
+\* the header is rewritten with whatever the slots hold in memory: the file grows or shrinks (layout fields),
+\* begin_writable() sets the recovery flag, a clean close clears it
+AsIs(rec) ==
   /\ cur.stage \in {"idle", "pages"} /\ grows < MaxGrow
   /\ grows' = grows + 1
-  /\ pend' = pend \o HdrWrites(hdr)
-  /\ UNCHANGED <<parent, hdr, dgod, dslots, dpages, vparts, cur, nextVer, nextTxn, acked, visible, crashes, bad>>
+  /\ hdr' = [hdr EXCEPT !.rec = rec]
+  /\ pend' = pend \o HdrWrites(hdr')
+  /\ UNCHANGED <<parent, dgod, dslots, dpages, vparts, cur, nextVer, nextTxn, acked, visible, crashes, bad>>
+
+\* a sync outside the two syncs of a commit (resize, open, close)
+IdleSync ==
+  /\ cur.stage \notin {"sync1", "sync2"}
+  /\ Persist
+  /\ UNCHANGED <<parent, hdr, vparts, cur, nextVer, nextTxn, acked, visible, crashes, grows, bad>>
 
 -----------------------------------------------------------------------------
 RECURSIVE Anc(_)
@@ -190,12 +204,12 @@ Crash ==
           /\ acked' = IF failed THEN acked ELSE r
           /\ visible' = r
   /\ pend' = <<>> /\ cur' = None /\ crashes' = crashes + 1
-  /\ vparts' = [v \in 0..MaxVer |-> IF v >= nextVer THEN 0 ELSE vparts[v]]
+  /\ vparts' = [v \in DOMAIN vparts |-> IF v >= nextVer THEN 0 ELSE vparts[v]]
   /\ UNCHANGED <<parent, nextVer, grows>>
 
 Next ==
-  \/ WritePage \/ Begin("1pc") \/ Begin("2pc") \/ SetSlot \/ WriteHdr1 \/ SkipHdr1 \/ Sync1 \/ Swap \/ Sync2
-  \/ NonDurable \/ Grow \/ Crash
+  \/ WritePage \/ Begin("1pc") \/ Begin("2pc") \/ SetSlot(nextTxn) \/ WriteHdr1 \/ SkipHdr1 \/ Sync1 \/ Swap \/ Sync2
+  \/ NonDurable(nextTxn) \/ AsIs(TRUE) \/ IdleSync \/ Crash
 
 Spec == Init /\ [][Next]_cvars
 
